@@ -542,6 +542,34 @@ class LibCalls:
             raise Unsupported(f"{name} with a symbolic attribute name", node, e.path)
         attr = an.conc
         private = False
+        if obj.t[0] == "ref" and attr.startswith("_") and not getattr(self, "_reflect_cast", False):
+            # '_name' may be the raw field of a descriptor declared only on a subclass of the static class (e.g. TimeCodeMessageHeader._utc_seconds)
+            static = obj.t[1]
+            if e.class_decl(static) is not None and not e.field_decl(static, attr[1:]) and not e.field_decl(static, attr):
+                subs = [c for c in sorted(e.subclasses_of(static)) if c != static and e.class_decl(c) is not None and e.field_decl(c, attr[1:])]
+                if subs:
+                    outs = []
+                    rest = st.fork()
+                    for c in subs:
+                        cond = e.dtype_fn(obj.z) == e.class_id(c)
+                        rest.assume(z3.Not(cond))
+                        if e.feasible(st, cond):
+                            s2 = st.fork()
+                            s2.assume(cond)
+                            self._reflect_cast = True
+                            try:
+                                outs.extend(self.reflect(name, [Val(ref(c), obj.z, origin=obj.origin)] + list(args[1:]), s2, node))
+                            finally:
+                                self._reflect_cast = False
+                    if e.feasible(rest):
+                        if name == "setattr":
+                            self.use("setattr of a name that is not a field of the ctypes structure creates a plain instance attribute: no field changes")
+                            outs.append((rest, e.const_val(None)))
+                        elif name == "getattr":
+                            outs.append((rest, Exc("AttributeError", f"{static}.{attr}", getattr(node, "lineno", 0))))
+                        else:
+                            outs.append((rest, Val(BOOL, z3.BoolVal(False))))
+                    return outs
         if obj.t[0] == "ref":
             d = e.class_decl(obj.t[1])
             if attr.startswith("_") and d is not None and e.field_decl(obj.t[1], attr[1:]) and not e.field_decl(obj.t[1], attr):
@@ -557,6 +585,10 @@ class LibCalls:
             return e.get_attr(obj, attr, st, node)
         if name == "setattr":
             val = args[2]
+            if (not private and obj.t[0] == "ref" and getattr(e.class_decl(obj.t[1]), "cinfo", None) and not e.field_decl(obj.t[1], attr)
+                    and not any(e.field_decl(c, attr) or e.field_decl(c, attr.lstrip("_")) for c in e.subclasses_of(obj.t[1]))):
+                self.use("setattr of a name that is not a field of the ctypes structure creates a plain instance attribute: no field changes")
+                return [(st, e.const_val(None))]
             if private:
                 fd = e.field_decl(obj.t[1], attr)
                 kind, meta = fd[2].cfields[attr]
